@@ -234,7 +234,10 @@ func malformedMetadata(r *sim.R, wd *world, m *model.Store, dirTS int64) *sim.Vi
 			}},
 			{"interface summary", func() error { _, err := dbcheck.Listing(rdb, "eth0", 1, 4102444800); return err }},
 			{"summary of a sub-range", func() error { _, err := dbcheck.Listing(rdb, "eth0", dirTS+400, dirTS+900); return err }},
-			{"query", func() error { _, err := dbcheck.Query(context.Background(), rdb, dbcheck.FullArgs("eth0", 1, 4102444800)); return err }},
+			{"query", func() error {
+				_, err := dbcheck.Query(context.Background(), rdb, dbcheck.FullArgs("eth0", 1, 4102444800))
+				return err
+			}},
 			{"day reader via writer path (append session)", func() error {
 				d := gpfile.NewDirWriter(rdb+"/eth0", dirTS)
 				if err := d.Open(); err != nil {
